@@ -6,6 +6,7 @@
 
 pub mod boxed;
 mod extra;
+pub mod checked_forms;
 pub mod fixed;
 pub mod forms;
 pub mod gens;
